@@ -3,9 +3,13 @@ package harness
 import (
 	"fmt"
 	"hash/fnv"
+	"os"
+	"runtime/debug"
+	"runtime/metrics"
 	"sort"
 	"strings"
 	"sync"
+	"syscall"
 	"testing"
 	"testing/synctest"
 	"time"
@@ -34,6 +38,38 @@ type Options struct {
 	// NoLeakCheck disables the generic leak oracle for scenarios that end on purpose
 	// with a live tunnel.
 	NoLeakCheck bool
+	// AllocLimit bounds the bytes one execution may allocate (process-wide heap allocation
+	// counter; a worker runs one execution at a time). 0 = DefaultAllocLimit.
+	AllocLimit int64
+	// AllocRisk marks scenarios whose peer announces sizes of a gigabyte or more: a broken
+	// endpoint would allocate that much, so their executions are serialised across the worker
+	// processes (file lock) instead of letting 16 of them do it at once.
+	AllocRisk bool
+}
+
+// DefaultAllocLimit is far above what any scenario legitimately allocates (messages of at most
+// a few windows, a few hundred events) and far below what an endpoint allocates that sizes a
+// buffer by what the peer announces rather than by what it received.
+const DefaultAllocLimit = 32 << 20
+
+var allocSample = []metrics.Sample{{Name: "/gc/heap/allocs:bytes"}}
+
+func heapAllocs() int64 {
+	metrics.Read(allocSample)
+	return int64(allocSample[0].Value.Uint64())
+}
+
+func allocLock() func() {
+	path := os.Getenv("VERIF_ALLOC_LOCK")
+	if path == "" {
+		return func() {}
+	}
+	f, err := os.OpenFile(path, os.O_CREATE|os.O_RDWR, 0o644)
+	if err != nil {
+		return func() {}
+	}
+	_ = syscall.Flock(int(f.Fd()), syscall.LOCK_EX)
+	return func() { _ = syscall.Flock(int(f.Fd()), syscall.LOCK_UN); f.Close() }
 }
 
 // Scenario is one closed program handed to the explorer.
@@ -84,6 +120,8 @@ type Exec struct {
 	ConfSig   uint64
 	Conflict  bool
 	Ticks     int
+	// Alloc: bytes allocated by the process during this execution
+	Alloc int64
 }
 
 func (x *Exec) Choices() []int {
@@ -162,6 +200,16 @@ func RunOnce(t *testing.T, sc *Scenario, prefix []int, expect [][]string) (x *Ex
 	if o.Quantum == 0 {
 		o.Quantum = time.Second
 	}
+	if o.AllocRisk {
+		defer allocLock()()
+	}
+	a0 := heapAllocs()
+	defer func() {
+		x.Alloc = heapAllocs() - a0
+		if x.Alloc > 256<<20 {
+			debug.FreeOSMemory()
+		}
+	}()
 	synctest.Test(t, func(t *testing.T) {
 		s := verifrt.New()
 		s.Active = levelActive(&o)
